@@ -145,10 +145,8 @@ func (th *Thread) schedPoint(ready func() bool, desc string) {
 		p.advanceClock()
 	}
 	en := p.enabledThreads()
-	if len(en) == 0 && p.eng.Cfg.ConcreteClock && p.pendingTimers() {
-		// discrete-event time: nothing can run, so time jumps until a timer expires
-		p.clock = BV(64, 1<<61)
-		en = p.enabledThreads()
+	if len(en) == 0 && p.pendingTimers() {
+		en = p.idleUntilTimer()
 	}
 	if len(en) == 0 {
 		th.ready = nil
@@ -197,9 +195,8 @@ func (th *Thread) exitSwitch() {
 		p.advanceClock()
 	}
 	en := p.enabledThreads()
-	if len(en) == 0 && p.eng.Cfg.ConcreteClock && p.pendingTimers() {
-		p.clock = BV(64, 1<<61)
-		en = p.enabledThreads()
+	if len(en) == 0 && p.pendingTimers() {
+		en = p.idleUntilTimer()
 	}
 	if len(en) == 0 {
 		p.deadlock()
@@ -226,6 +223,27 @@ func (p *Path) deadlock() {
 	p.flushAsserts()
 	p.logf("DEADLOCK %s", msg)
 	p.fail("deadlock", "deadlock", msg)
+}
+
+// idleUntilTimer: nothing can run, so time passes until some timer expires.
+func (p *Path) idleUntilTimer() []*Thread {
+	if p.eng.Cfg.ConcreteClock {
+		p.clock = BV(64, 1<<61)
+		return p.enabledThreads()
+	}
+	p.advanceClock()
+	some := FalseT
+	for _, ch := range p.timers {
+		if ch.timer != nil && ch.timer.active {
+			some = Or(some, Cmp(OpUle, ch.timer.deadline, p.clock))
+		}
+	}
+	p.assume(some)
+	if p.w.solver.CheckWith() == Unsat {
+		// no timer can ever expire within the clock range: genuinely stuck
+		return nil
+	}
+	return p.enabledThreads()
 }
 
 func (p *Path) pendingTimers() bool {
